@@ -204,8 +204,8 @@ func checkIPP(c ippCase, cutAt int) error {
 	} else {
 		conn.Send(stream)
 	}
-	if !conn.WaitClosed(20 * time.Second) {
-		return fmt.Errorf("ipp handler did not finish within 20s of a complete request (request id %d)", c.ReqID)
+	if !conn.WaitClosed(60 * time.Second) {
+		return fmt.Errorf("ipp handler did not finish within 60s of a complete request (request id %d)", c.ReqID)
 	}
 	out := conn.Output()
 	resp, err := http.ReadResponse(bufio.NewReader(bytes.NewReader(out)), nil)
